@@ -26,6 +26,9 @@
 #include <iterator>
 #include <limits>
 #include <stdexcept>
+#include <atomic>
+#include <thread>
+#include <vector>
 #include <string>
 
 using vh::json;
@@ -215,6 +218,33 @@ void do_tfmt(int k, const json& it) {
     expect_text(k, "Timestamp::to_iso_all", b, true, str, "");
     Outcome c = call([&](Outcome& o) { o.v = static_cast<int64_t>(static_cast<uint32_t>(osmium::Timestamp{str.c_str()})); });
     expect(k, "Timestamp(iso(t))", c, true, static_cast<int64_t>(t), -1, "");
+    // the same conversion while other threads convert other values (libosmium formats on its output pool threads; the
+    // result must not depend on what other threads are doing): every 16th case
+    static unsigned long counter = 0;
+    if (t != 0 && (counter++ % 16) == 0) {
+        std::atomic<bool> stop{false};
+        std::vector<std::thread> others;
+        for (unsigned i = 0; i < 3; ++i) {
+            others.emplace_back([&stop, i, t] {
+                uint32_t x = t * 2654435761U + i * 977U + 1U;
+                while (!stop.load(std::memory_order_relaxed)) {
+                    x = x * 1664525U + 1013904223U;
+                    volatile std::size_t len = osmium::Timestamp{x | 1U}.to_iso_all().size();
+                    (void)len;
+                }
+            });
+        }
+        std::string bad;
+        for (int rep = 0; rep < 2000 && bad.empty(); ++rep) {
+            const std::string got = osmium::Timestamp{t}.to_iso_all();
+            if (got != str) bad = got;
+        }
+        stop = true;
+        for (auto& th : others) th.join();
+        if (!bad.empty()) {
+            throw vh::Mismatch(k, str, bad, "Timestamp::to_iso_all while three other threads format other timestamps");
+        }
+    }
 }
 
 // ---- integers ----------------------------------------------------------------------------------------------------
